@@ -125,6 +125,11 @@ class Reference:
         self.final = {}          # node -> final Res
         self.oneof_log = []      # (consumer, kw, [(cand, ok)], winner)
         self.switch_log = []     # (consumer, kw, switchnode, label, case|None)
+        self.oneof_detail = []
+        self.requests = {}      # node -> set of one-of context stacks it was requested from
+        self.ctx_stack = []
+        self.req_edges = set()
+        self.eval_stack = []
         self.last_kwargs = {}
         self._paths = {}
         self.epoch = 0
@@ -144,10 +149,31 @@ class Reference:
         return self.demand(n)
 
     def demand(self, n) -> Res:
+        self.requests.setdefault(n, set()).add(tuple(self.ctx_stack))
+        self.req_edges.add((self.eval_stack[-1] if self.eval_stack else None, n))
         hit = self.memo.get(n)
         if hit is not None:
             return hit
         self.demanded.add(n)
+        self.eval_stack.append(n)
+        try:
+            return self._demand(n)
+        finally:
+            self.eval_stack.pop()
+
+    def needed_outside(self, ctx):
+        """nodes that are (transitively) requested from somewhere outside the one-of candidate context ctx"""
+        out = {x for x, stacks in self.requests.items() if any(ctx not in st for st in stacks)}
+        changed = True
+        while changed:
+            changed = False
+            for y, x in self.req_edges:
+                if y in out and x not in out:
+                    out.add(x)
+                    changed = True
+        return out
+
+    def _demand(self, n) -> Res:
         node = self.nodes[n]
         inp = self.spec['input']
         causes = set()
@@ -242,13 +268,25 @@ class Reference:
             return Res(ERR, causes=frozenset({('nocase', consumer, kw, vrepr(label))}))
         if k == 'OneOf':
             tried = []
+            detail = []
             for c in mark[1]:
-                r = self.eval_in(c)
+                before = set(self.demanded)
+                ncalls = len(self.calls)
+                self.ctx_stack.append((consumer, kw, c))
+                try:
+                    r = self.eval_in(c)
+                finally:
+                    self.ctx_stack.pop()
                 tried.append((c, r.ok))
+                detail.append({'cand': c, 'ok': r.ok, 'new': self.demanded - before,
+                               'causes': r.causes if not r.ok else frozenset(),
+                               'calls': self.calls[ncalls:]})
                 if r.ok:
                     self.oneof_log.append((consumer, kw, tried, c))
+                    self.oneof_detail.append((consumer, kw, detail))
                     return r
             self.oneof_log.append((consumer, kw, tried, None))
+            self.oneof_detail.append((consumer, kw, detail))
             return Res(ERR, causes=frozenset({('oneof', consumer, kw)}))
         raise ValueError(k)
 
